@@ -106,6 +106,8 @@ def _drm_selection_from_string(value: str) -> list[DrmSelectionTuple]:
         else:
             drm = item
             locations = ALL_DRM_LOCATIONS
+        if drm not in DrmSystem.values():
+            raise ValueError(f'Unknown DRM system "{drm}"')
         result.append((drm, locations))
     return result
 
